@@ -23,6 +23,9 @@ import (
 //	pair <privI32> <privR32> <req>                              -> ok <key> | mismatch <kI> <kR> | err
 //	     both roles on real X25519 key pairs: pubs by ScalarBaseMult, ComputeECDH on each side,
 //	     DeriveSessionKey(…, pubI, pubR, true) vs DeriveSessionKey(…, pubI, pubR, false)
+//	tunnel tcp|udp|fwd|file|shell <payload>                     -> as engine c04's `mesh` op
+//	     one live tunnel of that kind through three real in-process agents: the payload only comes
+//	     back if the initiator and responder call sites of that kind derived the same key
 func c03Key32(s string) (k [crypto.KeySize]byte) {
 	b := unhexTok(s)
 	if len(b) != crypto.KeySize {
@@ -76,6 +79,12 @@ func init() {
 					return "err"
 				}
 				return "ok " + hex.EncodeToString(s[:])
+			case f[0] == "tunnel" && len(f) == 3 && c03Tunnel != nil:
+				switch f[1] {
+				case "tcp", "udp", "fwd", "file", "shell":
+					return c03Tunnel(f[1], unhexTok(f[2]))
+				}
+				return "bad-op"
 			case f[0] == "pair" && len(f) == 4:
 				privI, privR := c03Key32(f[1]), c03Key32(f[2])
 				req, err := strconv.ParseUint(f[3], 10, 64)
@@ -130,6 +139,15 @@ func init() {
 			for _, lo := range c03LowOrder {
 				fmt.Fprintf(w, "dh %s %s\n", h(r.bytes(32)), lo)
 				fmt.Fprintf(w, "dh %s %s\n", h(key()), lo)
+			}
+			for _, kind := range []string{"tcp", "udp", "fwd", "file", "shell"} {
+				reps := 1
+				if tier == "thorough" {
+					reps = 10
+				}
+				for j := 0; j < reps; j++ {
+					fmt.Fprintf(w, "tunnel %s %s\n", kind, h(r.bytes(r.pick(32, 64, 500))))
+				}
 			}
 			for i := 0; i < n; i++ {
 				switch r.intn(10) {
